@@ -445,6 +445,356 @@ def locate(src):
 def strip_docstring(body):
     return body[1:] if body and isinstance(body[0], ast.Expr) and isinstance(body[0].value, ast.Constant) and isinstance(body[0].value.value, str) else body
 
+# ---------------------------------------------------------------------------------------------------------------------
+# rrule.__str__  ->  Gen.rruleStr : RRuleStr.StrIn -> List Char
+#
+# The method is straight-line code over lists that only grow (`output`, `parts`, `wday_strings`): every statement is matched
+# against the statement shapes below and every expression is translated; anything else is Untranslatable.
+#   self._dtstart / self._until   Option (y, m, d, hh, mm, ss)     truth value = present
+#   self._freq / _interval / _wkst / _count                        Nat / Int / Int / Option Int
+#   self._original_rule           the recorded BY arguments (RRuleStr.RArgs); byweekday holds weekday objects (weekday, n)
+#   calendar.firstweekday()       x.fwd
+#   '<lit>%04d' % e, e.strftime('<%m %d %H %M %S and literals>'), str(e), repr(weekday)[0:2], '{n:+d}{wday}'.format(...),
+#   '{name}={vals}'.format(...), ','.join(str(v) for v in value), FREQNAMES[e], lit + e, sep.join(list)
+
+STR_KEYS = {"bysetpos": "IntList", "bymonth": "IntList", "bymonthday": "IntList", "byyearday": "IntList", "byeaster": "IntList",
+            "byweekno": "IntList", "byweekday": "WDayList", "byhour": "IntList", "byminute": "IntList", "bysecond": "IntList"}
+SELF_ATTRS = {"_dtstart": ("x.dtstart", "OptSix"), "_until": ("x.untilV", "OptSix"), "_freq": ("x.freq", "Nat"),
+              "_interval": ("x.interval", "Int"), "_wkst": ("x.wkst", "Int"), "_count": ("x.count", "OptInt")}
+SIX = ["year", "month", "day", "hour", "minute", "second"]
+STRF = {"Y": ("RRuleStr.pad 4", 0), "m": ("RRuleStr.pad 2", 1), "d": ("RRuleStr.pad 2", 2), "H": ("RRuleStr.pad 2", 3),
+        "M": ("RRuleStr.pad 2", 4), "S": ("RRuleStr.pad 2", 5)}
+
+def mlit(v):
+    """a string literal of `__str__`: `RRuleStr.lit "…"` when it is plain printable text (the model is written that way), else a character list"""
+    if len(v) > 1 and all(32 <= ord(c) < 127 and c not in '"\\' for c in v):
+        return '(RRuleStr.lit "%s")' % v
+    return lean_str(v)
+
+class StrMethod:
+    def __init__(self):
+        self.env = {}        # python name -> (lean expr, type)
+        self.lines = []      # `let` lines
+        self.n = 0
+
+    def bind(self, name, expr, ty):
+        self.n += 1
+        v = "%s%d" % (name.replace("_", ""), self.n)
+        self.lines.append("let %s := %s" % (v, expr))
+        self.env[name] = (v, ty)
+
+    def is_self(self, e, attr=None):
+        return isinstance(e, ast.Attribute) and isinstance(e.value, ast.Name) and e.value.id == "self" and (attr is None or e.attr == attr)
+
+    # ---- expressions of type Str / Int / lists
+    def ex(self, e):
+        if isinstance(e, ast.Constant) and isinstance(e.value, str):
+            return mlit(e.value), "Str"
+        if isinstance(e, ast.Constant) and isinstance(e.value, int) and not isinstance(e.value, bool):
+            return "(%d : Int)" % e.value, "Int"
+        if isinstance(e, ast.Name):
+            if e.id not in self.env: raise Untranslatable("__str__: name %s" % e.id)
+            return self.env[e.id]
+        if self.is_self(e) and e.attr in SELF_ATTRS:
+            return SELF_ATTRS[e.attr]
+        if isinstance(e, ast.Attribute) and e.attr in SIX:
+            b, t = self.ex(e.value)
+            if t != "Six": raise Untranslatable("__str__: .%s of %s" % (e.attr, t))
+            return "(RRuleStr.sixGet %s %d)" % (b, SIX.index(e.attr)), "Nat"
+        if isinstance(e, ast.Attribute) and e.attr == "n":
+            b, t = self.ex(e.value)
+            if t != "WDay": raise Untranslatable("__str__: .n of %s" % t)
+            return "%s.2" % b, "OptInt"
+        if isinstance(e, ast.BinOp) and isinstance(e.op, ast.Add):
+            l, lt = self.ex(e.left); r, rt = self.ex(e.right)
+            if lt == rt == "Str": return "(%s ++ %s)" % (l, r), "Str"
+            raise Untranslatable("__str__: + on %s, %s" % (lt, rt))
+        if isinstance(e, ast.BinOp) and isinstance(e.op, ast.Mod) and isinstance(e.left, ast.Constant) and isinstance(e.left.value, str):
+            fmt = e.left.value
+            if not fmt.endswith("%04d") or "%" in fmt[:-4]: raise Untranslatable("__str__: format %r" % fmt)
+            r, rt = self.ex(e.right)
+            if rt != "Nat": raise Untranslatable("__str__: %%04d of %s" % rt)
+            return "(%s ++ RRuleStr.pad 4 %s)" % (mlit(fmt[:-4]), r), "Str"
+        if isinstance(e, ast.Subscript):
+            if isinstance(e.value, ast.Name) and e.value.id == "FREQNAMES":
+                i, it = self.ex(e.slice)
+                if it != "Nat": raise Untranslatable("__str__: FREQNAMES index")
+                return "((Gen.FREQNAMES.getD %s \"\").toList)" % i, "Str"
+            if isinstance(e.slice, ast.Slice) and isinstance(e.slice.lower, ast.Constant) and e.slice.lower.value == 0 \
+               and isinstance(e.slice.upper, ast.Constant) and isinstance(e.slice.upper.value, int) and e.slice.step is None:
+                b, t = self.ex(e.value)
+                if t != "Str": raise Untranslatable("__str__: slice of %s" % t)
+                return "(List.take %d %s)" % (e.slice.upper.value, b), "Str"
+            if isinstance(e.value, ast.Name) and e.value.id == "original_rule" and isinstance(e.slice, ast.Constant) and e.slice.value in STR_KEYS:
+                return self.env["original_rule." + e.slice.value]
+            raise Untranslatable("__str__: subscript")
+        if isinstance(e, ast.Call):
+            f = e.func
+            if isinstance(f, ast.Name) and f.id == "str" and len(e.args) == 1:
+                b, t = self.ex(e.args[0])
+                if t == "Int": return "(RRuleStr.showInt %s)" % b, "Str"
+                if t == "Str": return b, "Str"
+                raise Untranslatable("__str__: str() of %s" % t)
+            if isinstance(f, ast.Name) and f.id == "repr" and len(e.args) == 1:
+                a = e.args[0]
+                if isinstance(a, ast.Call) and isinstance(a.func, ast.Name) and a.func.id == "weekday" and len(a.args) == 1:
+                    b, t = self.ex(a.args[0])
+                    if t != "Int": raise Untranslatable("__str__: weekday(%s)" % t)
+                    return "(RRuleStr.weekdayRepr (%s, none))" % b, "Str"
+                b, t = self.ex(a)
+                if t != "WDay": raise Untranslatable("__str__: repr of %s" % t)
+                return "(RRuleStr.weekdayRepr %s)" % b, "Str"
+            if isinstance(f, ast.Attribute) and f.attr == "strftime" and len(e.args) == 1 and isinstance(e.args[0], ast.Constant):
+                b, t = self.ex(f.value)
+                if t != "Six": raise Untranslatable("__str__: strftime of %s" % t)
+                fmt, out, k = e.args[0].value, [], 0
+                while k < len(fmt):
+                    if fmt[k] == "%":
+                        if k + 1 >= len(fmt) or fmt[k + 1] not in STRF: raise Untranslatable("__str__: strftime directive in %r" % fmt)
+                        fn, idx = STRF[fmt[k + 1]]
+                        out.append("%s (RRuleStr.sixGet %s %d)" % (fn, b, idx)); k += 2
+                    else:
+                        out.append(lean_str(fmt[k])); k += 1
+                return "(" + " ++ ".join(out) + ")", "Str"
+            if isinstance(f, ast.Attribute) and f.attr == "format" and isinstance(f.value, (ast.Constant, ast.Name)) and not e.args:
+                fmt = f.value.value if isinstance(f.value, ast.Constant) else self.env.get(f.value.id, (None, None))[0]
+                if isinstance(f.value, ast.Name) and self.env.get(f.value.id, (None, None))[1] != "FmtLit": raise Untranslatable("__str__: format receiver")
+                kws = {k.arg: k.value for k in e.keywords}
+                import re as _re
+                out, pos = [], 0
+                for m in _re.finditer(r"\{(\w+)(:\+d)?\}", fmt):
+                    if m.start() > pos: out.append(mlit(fmt[pos:m.start()]))
+                    if m.group(1) not in kws: raise Untranslatable("__str__: format field %s" % m.group(1))
+                    b, t = self.ex(kws[m.group(1)])
+                    if m.group(2):
+                        if t != "Int": raise Untranslatable("__str__: {:+d} of %s" % t)
+                        out.append("RRuleStr.showIntSigned %s" % b)
+                    else:
+                        if t != "Str": raise Untranslatable("__str__: {} of %s" % t)
+                        out.append(b)
+                    pos = m.end()
+                if "{" in fmt[pos:] or "}" in fmt[pos:]: raise Untranslatable("__str__: format string %r" % fmt)
+                if pos < len(fmt): out.append(mlit(fmt[pos:]))
+                return "(" + " ++ ".join(out) + ")", "Str"
+            if isinstance(f, ast.Attribute) and f.attr == "join" and isinstance(f.value, ast.Constant) and isinstance(f.value.value, str) and len(e.args) == 1:
+                a = e.args[0]
+                if isinstance(a, ast.GeneratorExp) and len(a.generators) == 1 and not a.generators[0].ifs and isinstance(a.generators[0].target, ast.Name):
+                    lst, lt = self.ex(a.generators[0].iter)
+                    if lt not in ("IntListV", "StrListV"): raise Untranslatable("__str__: join over %s" % lt)
+                    v = a.generators[0].target.id
+                    saved = self.env.get(v)
+                    self.env[v] = (v, "Int" if lt == "IntListV" else "Str")
+                    b, t = self.ex(a.elt)
+                    if saved is None: del self.env[v]
+                    else: self.env[v] = saved
+                    if t != "Str": raise Untranslatable("__str__: join element")
+                    return "(RRuleStr.intercalate %s (%s.map (fun %s => %s)))" % (lean_str(f.value.value), lst, v, b), "Str"
+                lst, lt = self.ex(a)
+                if lt != "StrListV": raise Untranslatable("__str__: join of %s" % lt)
+                return "(RRuleStr.intercalate %s %s)" % (lean_str(f.value.value), lst), "Str"
+            if isinstance(f, ast.Attribute) and f.attr == "firstweekday" and isinstance(f.value, ast.Name) and f.value.id == "calendar" and not e.args:
+                return "x.fwd", "Int"
+        raise Untranslatable("__str__: expression %s" % ast.dump(e)[:100])
+
+    def cond(self, e):
+        """(kind, payload): ('bool', lean) or ('some', optexpr, boundname, boundtype)"""
+        if isinstance(e, ast.BoolOp) and isinstance(e.op, ast.Or):
+            parts = [self.cond(v) for v in e.values]
+            if any(p[0] != "bool" for p in parts): raise Untranslatable("__str__: or over optional values")
+            return ("bool", "(" + " || ".join(p[1] for p in parts) + ")")
+        if isinstance(e, ast.Compare) and len(e.ops) == 1:
+            if isinstance(e.ops[0], ast.IsNot) and isinstance(e.comparators[0], ast.Constant) and e.comparators[0].value is None:
+                b, t = self.ex(e.left)
+                if t == "OptInt": return ("some", b, "Int")
+                raise Untranslatable("__str__: is not None on %s" % t)
+            if isinstance(e.ops[0], ast.NotEq):
+                l, lt = self.ex(e.left); r, rt = self.ex(e.comparators[0])
+                if lt == rt == "Int": return ("bool", "(%s != %s)" % (l, r))
+            raise Untranslatable("__str__: comparison")
+        b, t = self.ex(e)
+        if t == "Int": return ("bool", "(%s != 0)" % b)
+        if t == "OptSix": return ("some", b, "Six")
+        if t == "OptInt": return ("someNZ", b, "Int")
+        raise Untranslatable("__str__: truth value of %s" % t)
+
+    def append_stmt(self, st):
+        """`L.append(e)` -> (L, e-expr)"""
+        if isinstance(st, ast.Expr) and isinstance(st.value, ast.Call) and isinstance(st.value.func, ast.Attribute) and st.value.func.attr == "append" \
+           and isinstance(st.value.func.value, ast.Name) and len(st.value.args) == 1:
+            return st.value.func.value.id, st.value.args[0]
+        return None
+
+    def guarded_appends(self, st, narrow):
+        """an `if` whose arms only append to lists (and assign dead names); returns {list: lean list expr} per arm"""
+        c = self.cond(st.test)
+        saved = dict(self.env)
+        def arm(stmts, positive):
+            out = {}
+            if positive and c[0] in ("some", "someNZ") and narrow is not None:
+                self.env[narrow[0]] = (narrow[1], c[2])
+            for s2 in stmts:
+                ap = self.append_stmt(s2)
+                if ap:
+                    b, t = self.ex(ap[1])
+                    if t != "Str": raise Untranslatable("__str__: append of %s" % t)
+                    out.setdefault(ap[0], []).append(b); continue
+                if isinstance(s2, ast.Assign) and all(isinstance(n, ast.Name) and n.id in ("h", "m", "s") for tg in s2.targets
+                                                      for n in (tg.elts if isinstance(tg, ast.Tuple) else [tg])):
+                    continue      # h, m, s: never read
+                raise Untranslatable("__str__: statement in a conditional arm: %s" % type(s2).__name__)
+            self.env = dict(saved)
+            return out
+        return c, arm
+
+    def run(self, fn):
+        body = strip_docstring(fn.body)
+        for st in body:
+            # L = [] / L = [e]
+            if isinstance(st, ast.Assign) and len(st.targets) == 1 and isinstance(st.targets[0], ast.Name) and isinstance(st.value, ast.List):
+                items = []
+                for it in st.value.elts:
+                    b, t = self.ex(it)
+                    if t != "Str": raise Untranslatable("__str__: list element")
+                    items.append(b)
+                self.bind(st.targets[0].id, "([%s] : List StrPy.Str)" % ", ".join(items), "StrListV"); continue
+            # h, m, s = [None] * 3   (never read)
+            if isinstance(st, ast.Assign) and len(st.targets) == 1 and isinstance(st.targets[0], ast.Tuple) \
+               and all(isinstance(n, ast.Name) and n.id in ("h", "m", "s") for n in st.targets[0].elts):
+                continue
+            if isinstance(st, ast.Assign) and len(st.targets) == 1 and isinstance(st.targets[0], ast.Name) and isinstance(st.value, ast.Constant) \
+               and isinstance(st.value.value, str):
+                self.env[st.targets[0].id] = (st.value.value, "FmtLit"); continue
+            ap = self.append_stmt(st)
+            if ap:
+                lst, lt = self.env.get(ap[0], (None, None))
+                if lt != "StrListV": raise Untranslatable("__str__: append to %s" % ap[0])
+                b, t = self.ex(ap[1])
+                self.bind(ap[0], "%s ++ [%s]" % (lst, b), "StrListV"); continue
+            if isinstance(st, ast.If) and self.is_byweekday_block(st):
+                self.byweekday_block(st); continue
+            if isinstance(st, ast.If):
+                # which object does the test narrow? `if self._x:` / `if self._x is not None:` -> self._x inside the arm
+                tgt = st.test.left if isinstance(st.test, ast.Compare) else st.test
+                narrow = None
+                if self.is_self(tgt) and tgt.attr in SELF_ATTRS and SELF_ATTRS[tgt.attr][1] in ("OptSix", "OptInt"):
+                    narrow = ("self." + tgt.attr, "v")
+                c, arm = self.guarded_appends(st, narrow)
+                if narrow:
+                    saved_attr = SELF_ATTRS[tgt.attr]
+                    SELF_ATTRS[tgt.attr] = ("v", c[2]) if c[0] in ("some", "someNZ") else saved_attr
+                    try: pos = arm(st.body, True)
+                    finally: SELF_ATTRS[tgt.attr] = saved_attr
+                else:
+                    pos = arm(st.body, True)
+                neg = arm(st.orelse, False)
+                for lname in sorted(set(pos) | set(neg)):
+                    lst, lt = self.env.get(lname, (None, None))
+                    if lt != "StrListV": raise Untranslatable("__str__: append to %s" % lname)
+                    P = "[" + ", ".join(pos.get(lname, [])) + "]"; N = "[" + ", ".join(neg.get(lname, [])) + "]"
+                    if c[0] == "bool": e = "(if %s then %s else %s)" % (c[1], P, N)
+                    elif c[0] == "some": e = "(match %s with | some v => %s | none => %s)" % (c[1], P, N)
+                    else: e = "(match %s with | some v => if v != 0 then %s else %s | none => %s)" % (c[1], P, N, N)
+                    self.bind(lname, "%s ++ %s" % (lst, e), "StrListV")
+                continue
+            if isinstance(st, ast.For) and isinstance(st.iter, ast.List) and isinstance(st.target, ast.Tuple) and len(st.target.elts) == 2:
+                self.by_loop(st); continue
+            if isinstance(st, ast.Return):
+                b, t = self.ex(st.value)
+                if t != "Str": raise Untranslatable("__str__: return of %s" % t)
+                self.lines.append(b); return
+            raise Untranslatable("__str__: statement %s" % type(st).__name__)
+        raise Untranslatable("__str__: no return")
+
+    def is_byweekday_block(self, st):
+        t = st.test
+        return isinstance(t, ast.Compare) and isinstance(t.left, ast.Call) and isinstance(t.left.func, ast.Attribute) and t.left.func.attr == "get" \
+            and self.is_self(t.left.func.value, "_original_rule") and isinstance(t.ops[0], ast.IsNot)
+
+    def byweekday_block(self, st):
+        key = st.test.left.args[0].value
+        if STR_KEYS.get(key) != "WDayList": raise Untranslatable("__str__: conversion block for %s" % key)
+        b = st.body
+        ok = (len(b) == 4 and isinstance(b[0], ast.Assign) and isinstance(b[0].value, ast.Call) and isinstance(b[0].value.func, ast.Name)
+              and b[0].value.func.id == "dict" and self.is_self(b[0].value.args[0], "_original_rule") and b[0].targets[0].id == "original_rule"
+              and isinstance(b[1], ast.Assign) and isinstance(b[1].value, ast.List) and not b[1].value.elts
+              and isinstance(b[2], ast.For) and isinstance(b[2].target, ast.Name) and isinstance(b[2].iter, ast.Subscript)
+              and isinstance(b[2].iter.value, ast.Name) and b[2].iter.value.id == "original_rule" and b[2].iter.slice.value == key
+              and len(b[2].body) == 1 and isinstance(b[2].body[0], ast.If)
+              and isinstance(b[3], ast.Assign) and isinstance(b[3].targets[0], ast.Subscript) and b[3].targets[0].slice.value == key
+              and isinstance(b[3].value, ast.Name) and b[3].value.id == b[1].targets[0].id
+              and len(st.orelse) == 1 and isinstance(st.orelse[0], ast.Assign) and st.orelse[0].targets[0].id == "original_rule"
+              and self.is_self(st.orelse[0].value, "_original_rule"))
+        if not ok: raise Untranslatable("__str__: shape of the byweekday conversion block")
+        lname, var, inner = b[1].targets[0].id, b[2].target.id, b[2].body[0]
+        self.env[var] = (var, "WDay")
+        tgt = inner.test
+        if not (isinstance(tgt, ast.Attribute) and tgt.attr == "n" and isinstance(tgt.value, ast.Name) and tgt.value.id == var):
+            raise Untranslatable("__str__: test in the weekday loop")
+        def one(stmts, narrowed):
+            if len(stmts) != 1: raise Untranslatable("__str__: weekday loop arm")
+            ap = self.append_stmt(stmts[0])
+            if not ap or ap[0] != lname: raise Untranslatable("__str__: weekday loop arm")
+            if narrowed:
+                # wday.n is the integer n inside the arm
+                class Sub(ast.NodeTransformer):
+                    def visit_Attribute(s2, node):
+                        if node.attr == "n" and isinstance(node.value, ast.Name) and node.value.id == var: return ast.Name(id="n__", ctx=ast.Load())
+                        return s2.generic_visit(node)
+                e2 = Sub().visit(ast.parse(ast.unparse(ap[1]), mode="eval").body)
+                self.env["n__"] = ("n", "Int")
+                b_, t_ = self.ex(e2); del self.env["n__"]
+            else:
+                b_, t_ = self.ex(ap[1])
+            if t_ != "Str": raise Untranslatable("__str__: weekday loop element")
+            return b_
+        A = one(inner.body, True); B = one(inner.orelse, False)
+        del self.env[var]
+        self.aux = ("/-- translated from `rrule.py:rrule.__str__`: the element the `for wday in original_rule['byweekday']:` loop appends -/\n"
+                    "def rruleStrWday (%s : RRuleStr.WDay) : StrPy.Str :=\n  match %s.2 with\n  | some n => if n != 0 then %s else %s\n  | none => %s\n" % (var, var, A, B, B))
+        conv = "rruleStrWday"
+        self.n += 1
+        v = "wdaystrings%d" % self.n
+        self.lines.append("let %s : Option (List StrPy.Str) := x.orig.byweekday.map (fun l => l.map %s)" % (v, conv))
+        for k, ty in STR_KEYS.items():
+            self.env["original_rule." + k] = (v, "OptStrList") if k == key else ("x.orig.%s" % k, "OptIntList")
+
+    def by_loop(self, st):
+        names = [n.id for n in st.target.elts]
+        if len(st.body) != 2: raise Untranslatable("__str__: BY loop body")
+        a, iff = st.body
+        if not (isinstance(a, ast.Assign) and isinstance(a.value, ast.Call) and isinstance(a.value.func, ast.Attribute) and a.value.func.attr == "get"
+                and isinstance(a.value.func.value, ast.Name) and a.value.func.value.id == "original_rule"
+                and isinstance(a.value.args[0], ast.Name) and a.value.args[0].id == names[1]
+                and isinstance(iff, ast.If) and isinstance(iff.test, ast.Name) and iff.test.id == a.targets[0].id and not iff.orelse
+                and len(iff.body) == 1):
+            raise Untranslatable("__str__: BY loop shape")
+        val = a.targets[0].id
+        ap = self.append_stmt(iff.body[0])
+        if not ap: raise Untranslatable("__str__: BY loop append")
+        for pair in st.iter.elts:
+            if not (isinstance(pair, ast.Tuple) and len(pair.elts) == 2 and all(isinstance(c, ast.Constant) and isinstance(c.value, str) for c in pair.elts)):
+                raise Untranslatable("__str__: BY loop table")
+            nm, key = pair.elts[0].value, pair.elts[1].value
+            if key not in STR_KEYS: raise Untranslatable("__str__: BY key %s" % key)
+            opt, oty = self.env["original_rule." + key]
+            self.env[names[0]] = (mlit(nm), "Str")
+            self.env[val] = ("l", "IntListV" if oty == "OptIntList" else "StrListV")
+            b, t = self.ex(ap[1])
+            lst, lt = self.env[ap[0]]
+            self.bind(ap[0], "%s ++ (match %s with | some l => if l.isEmpty then [] else [%s] | none => [])" % (lst, opt, b), "StrListV")
+        del self.env[names[0]]; del self.env[val]
+
+def translate_rrule_str(src):
+    tree = ast.parse(open(os.path.join(src, "rrule.py")).read())
+    fn = find_function(tree, "rrule.__str__")
+    m = StrMethod()
+    m.run(fn)
+    body = "\n".join(m.lines)
+    text = getattr(m, "aux", "") + "\n" + ("/-- translated from `rrule.py:rrule.__str__` (whole method); `x` = the attributes it reads (`RRuleStr.StrIn`: `_dtstart`, `_freq`,\n"
+            "    `_interval`, `_wkst`, `_count`, `_until`, `_original_rule`, and `calendar.firstweekday()` as `fwd`) -/\n"
+            "def rruleStr (x : RRuleStr.StrIn) : StrPy.Str :=\n%s\n" % indent(body))
+    return text, {"rrule.__str__": fingerprint([fn])}
+
 def translate_all(src):
     loc = locate(src)
     out, fps = [], {}
@@ -478,6 +828,8 @@ def translate_all(src):
                "    strings; `date_tzinfo` = the zone `parser.parse` gave the date (none = naive), result = the zone of the date appended -/\n"
                "def rrsAttach (TZID date_tzinfo : Option StrPy.Zone) : Py.R (Option StrPy.Zone) :=\n%s\n" % indent(body))
     fps["_rrulestr._parse_date_value[attach]"] = fingerprint(loc["attach"])
+    text, fp = translate_rrule_str(src)
+    out.append(text); fps.update(fp)
     return "\n".join(out), fps
 
 if __name__ == "__main__":
